@@ -85,6 +85,9 @@ MonEvent(M, p, k) ==
   \* peer, so an Accept logged before this event was pulled belonged to an earlier substream
   \* (consent through auto-accept is not withdrawn: an open command logged earlier may be handled later)
   CASE k = "validate" -> [M EXCEPT !.ps[p].asked = TRUE, !.ps[p].acc = FALSE]
+    [] k \in {"opened", "openfail"} /\ s.nans + 1 > s.nop + s.nacc ->
+         \* "exactly one of": every answer belongs to an open command or to an Accept of the user
+         Fail([M EXCEPT !.ps[p].nans = s.nans + 1, !.ps[p].open = (k = "opened") \/ s.open], p, "more answers than open requests and acceptances")
     [] k = "opened" ->
          IF s.open THEN Fail(M, p, "stream opened twice without a close in between")
          ELSE IF ~Consent(M, p) THEN Fail([M EXCEPT !.ps[p].open = TRUE], p, "inbound stream opened without the user's acceptance")
